@@ -48,6 +48,10 @@ const CONTEXTS9: &[(&str, &str)] = &[
     ("for _i in 0..1 { ", " }"),
     ("loop { ", "; break; }"),
     ("let _ = Some(n).map(|_v| ", ");"),
+    // the token after the statement's `;` is a string literal
+    ("let _tail: &str = { ", "; \"up\" };"),
+    ("", "; let _lit = (\"plain literal\", 1);"),
+    ("", "; \"literal expression statement\";"),
 ];
 
 #[derive(Clone, Debug, PartialEq, Eq, Hash, Serialize, Deserialize)]
